@@ -1,6 +1,187 @@
 """C19 -- partition, weight and MEDIT files round-trip losslessly."""
+import os, re, sys
+sys.path.insert(0, os.path.dirname(os.path.dirname(os.path.abspath(__file__))))
+from translate_lib import read, fn_body, Fail, HEADER
 
-GENERATORS = {}
+ETYPES = ["Vertex", "Edge", "Triangle", "Quadrangle", "Quadrilateral", "Tetrahedron", "Hexahedron"]
+
+
+def _bytes(s):
+    return "[" + "; ".join(str(b) for b in s.encode("utf-8")) + "]"
+
+
+def _arms(body, rhs_pat):
+    """`ElementType::A | ElementType::B => <rhs>` arms of a match on an element type -> {variant: rhs}"""
+    out = {}
+    for m in re.finditer(r"((?:(?:ElementType|Self)::\w+\s*\|?\s*)+)=>\s*" + rhs_pat, body):
+        for v in re.findall(r"(?:ElementType|Self)::(\w+)", m.group(1)):
+            if v in out:
+                raise Fail("variant %s matched twice" % v)
+            out[v] = m.group(2)
+    return out
+
+
+def _total(d, what):
+    missing = [v for v in ETYPES if v not in d]
+    extra = [v for v in d if v not in ETYPES]
+    if missing or extra:
+        raise Fail("%s: variants missing %s / unknown %s" % (what, missing, extra))
+
+
+# ---------------------------------------------------------------- partition + weight constants
+def gen_formats():
+    out = HEADER.format(src="tools/mesh-io/src/partition.rs, weight.rs")
+    out += "From Coq Require Import NArith List.\nImport ListNotations.\nOpen Scope N_scope.\n"
+    src = read("tools/mesh-io/src/partition.rs")
+    rd = fn_body(src, "read")
+    wr = fn_body(src, "write")
+    if rd is None or wr is None:
+        raise Fail("partition.rs: fn read / fn write not found")
+    m = re.search(r'header\s*!=\s*b"([^"]*)"', rd)
+    if not m:
+        raise Fail("partition::read: header comparison not found")
+    out += "Definition part_magic_read : list N := %s.\n" % _bytes(m.group(1))
+    m = re.search(r'write!\(\s*w\s*,\s*"([^"{}]*)"\s*\)', wr)
+    if not m:
+        raise Fail("partition::write: magic not found")
+    out += "Definition part_magic_write : list N := %s.\n" % _bytes(m.group(1))
+    for fn, name in ((rd, "read"), (wr, "write")):
+        if len(re.findall(r"u64::(?:from|to)_le_bytes", fn)) != 2:
+            raise Fail("partition::%s: expected two little-endian u64 conversions" % name)
+
+    src = read("tools/mesh-io/src/weight.rs")
+    m = re.search(r"const\s+VERSION\s*:\s*u8\s*=\s*(\d+)\s*;", src)
+    if not m:
+        raise Fail("weight.rs: VERSION not found")
+    out += "Definition weight_version : N := %s.\n" % m.group(1)
+    m = re.search(r"const\s+FLAG_INTEGER\s*:\s*u8\s*=\s*1\s*<<\s*(\d+)\s*;", src)
+    if not m:
+        raise Fail("weight.rs: FLAG_INTEGER not found")
+    out += "Definition weight_flag_integer : N := %d.\n" % (1 << int(m.group(1)))
+    rd = fn_body(src, "read")
+    wr = fn_body(src, "write_inner")
+    m = re.search(r'header\s*!=\s*b"([^"]*)"', rd or "")
+    if not m:
+        raise Fail("weight::read: header comparison not found")
+    out += "Definition weight_magic_read : list N := %s.\n" % _bytes(m.group(1))
+    m = re.search(r'write!\(\s*w\s*,\s*"([^"{}]*)"\s*\)', wr or "")
+    if not m:
+        raise Fail("weight::write_inner: magic not found")
+    out += "Definition weight_magic_write : list N := %s.\n" % _bytes(m.group(1))
+    # the 16-byte literal written for an empty array
+    m = re.search(r"let\s+buf\s*=\s*\[([^\]]*)\]", wr)
+    if not m:
+        raise Fail("weight::write_inner: empty-array literal not found")
+    items = [x.strip() for x in m.group(1).split(",") if x.strip()]
+    conv = []
+    for x in items:
+        mm = re.match(r"b'(.)'$", x)
+        if mm:
+            conv.append(str(ord(mm.group(1))))
+        elif x == "VERSION":
+            conv.append("weight_version")
+        elif x == "flags":
+            conv.append("flags")
+        elif re.match(r"\d+$", x):
+            conv.append(x)
+        else:
+            raise Fail("weight::write_inner: unexpected item %r in the empty-array literal" % x)
+    out += "Definition weight_empty_file (flags : N) : list N := [%s].\n" % "; ".join(conv)
+    # the assertion on the criterion count: largest count accepted
+    m = re.search(r"assert!\(\s*criterion_count\s*(<=|<)\s*([^,]+),", wr)
+    if not m:
+        raise Fail("weight::write_inner: criterion-count assertion not found")
+    rhs = m.group(2).strip()
+    vals = {"u16::MAX as usize": 65535, "std::mem::size_of::<u16>()": 2, "size_of::<u16>()": 2}
+    if rhs not in vals:
+        raise Fail("weight::write_inner: unexpected bound %r" % rhs)
+    out += "Definition weight_max_criteria : N := %d.\n" % (vals[rhs] if m.group(1) == "<=" else vals[rhs] - 1)
+    return out
+
+
+# ---------------------------------------------------------------- MEDIT tables
+def gen_medit():
+    out = HEADER.format(src="tools/mesh-io/src/lib.rs, medit/mod.rs, medit/parser.rs, medit/serializer.rs")
+    out += "From Coupe Require Import Lib.Prelude Model.MeditTypes.\nOpen Scope N_scope.\n"
+    mod = read("tools/mesh-io/src/medit/mod.rs")
+    codes = dict(re.findall(r"pub\s+const\s+(\w+)\s*:\s*i64\s*=\s*(-?\d+)\s*;", mod))
+    for k in ("DIMENSION", "VERTEX", "EDGE", "TRIANGLE", "QUAD", "TETRAHEDRON", "HEXAHEDRON", "END"):
+        if k not in codes:
+            raise Fail("medit/mod.rs: code::%s not found" % k)
+    for k, v in codes.items():
+        out += "Definition code_%s : Z := (%s)%%Z.\n" % (k, v)
+
+    lib = read("tools/mesh-io/src/lib.rs")
+    nc = _arms(fn_body(lib, "node_count") or "", r"(\d+)")
+    _total(nc, "ElementType::node_count")
+    out += "Definition etype_node_count (t : etype) : nat :=\n  match t with\n"
+    for v in ETYPES:
+        out += "  | %s => %s\n" % (v, nc[v])
+    out += "  end%nat.\n"
+
+    ser = read("tools/mesh-io/src/medit/serializer.rs")
+    cd = _arms(fn_body(ser, "code") or "", r"code::(\w+)")
+    _total(cd, "ElementType::code")
+    out += "Definition etype_code (t : etype) : Z :=\n  match t with\n"
+    for v in ETYPES:
+        if cd[v] not in codes:
+            raise Fail("ElementType::code: unknown constant code::%s" % cd[v])
+        out += "  | %s => code_%s\n" % (v, cd[v])
+    out += "  end.\n"
+
+    par = read("tools/mesh-io/src/medit/parser.rs")
+    fc = fn_body(par, "from_code")
+    if fc is None:
+        raise Fail("ElementType::from_code not found")
+    arms = re.findall(r"code::(\w+)\s*=>\s*Self::(\w+)", fc)
+    if not arms:
+        raise Fail("ElementType::from_code: no arm found")
+    out += "(* match arms in source order: the first equal constant wins *)\n"
+    out += "Definition etype_from_code (c : Z) : option etype :=\n"
+    for k, v in arms:
+        if k not in codes or v not in ETYPES:
+            raise Fail("ElementType::from_code: unexpected arm %s => %s" % (k, v))
+        out += "  if (c =? code_%s)%%Z then Some %s else\n" % (k, v)
+    out += "  None.\n"
+
+    # ASCII section names: Display for AsciiElementType, FromStr for ElementType
+    names = dict(re.findall(r'ElementType::(\w+)\s*=>\s*write!\(\s*f\s*,\s*"([^"]*)"\s*\)', ser))
+    _total(names, "AsciiElementType::fmt")
+    out += "Definition etype_ascii_name (t : etype) : list N :=\n  match t with\n"
+    for v in ETYPES:
+        out += "  | %s => %s   (* %s *)\n" % (v, _bytes(names[v]), names[v])
+    out += "  end.\n"
+    fs = fn_body(par, "from_str")
+    if fs is None:
+        raise Fail("FromStr for ElementType not found")
+    kws = re.findall(r'"([^"]*)"\s*=>\s*ElementType::(\w+)', fs)
+    if not kws:
+        raise Fail("FromStr for ElementType: no arm found")
+    out += "Definition etype_keywords : list (list N * etype) :=\n  [ "
+    out += ";\n    ".join("(%s, %s)   (* %s *)" % (_bytes(k), v, k) for k, v in kws).replace(")   (*", ")  (*")
+    out += "\n  ].\n"
+    # skipped sections
+    m = re.search(r'((?:"\w+"\s*\|\s*)+"\w+")\s*=>\s*\{\s*drop\(section\);[^}]*?num_entries', par)
+    if not m:
+        raise Fail("parse_ascii: skipped-section arm not found")
+    sk = re.findall(r'"(\w+)"', m.group(1))
+    out += "Definition ascii_skipped_sections : list (list N) :=\n  [ " + ";\n    ".join(
+        "%s  (* %s *)" % (_bytes(k), k) for k in sk) + "\n  ].\n"
+
+    # binary writer: magic, version, End code literals; reader: accepted magic
+    sb = fn_body(ser, "serialize_medit_binary")
+    if sb is None:
+        raise Fail("serialize_medit_binary not found")
+    lits = re.findall(r"i32::to_le_bytes\((\d+)\)", sb)
+    if len(lits) != 3:
+        raise Fail("serialize_medit_binary: expected three literal i32 (magic, version, End), found %s" % lits)
+    out += "Definition bin_write_magic : N := %s.\nDefinition bin_write_version : N := %s.\nDefinition bin_write_end : Z := (%s)%%Z.\n" % tuple(lits)
+    if len(re.findall(r"to_be_bytes", sb)):
+        raise Fail("serialize_medit_binary: big-endian conversion present")
+    return out
+
+
+GENERATORS = {"FormatsGen.v": gen_formats, "MeditGen.v": gen_medit}
 
 PROP = dict(
     bin="c19",
